@@ -114,7 +114,7 @@ pub fn run(args: &[String]) {
     let shared = Shared::new();
     ns.par_iter().for_each(|&n| {
         let mut rep = Report::default();
-        for kind in Kind::ALL {
+        for kind in avail() {
             let dir = if n % 2 == 0 { FftDirection::Forward } else { FftDirection::Inverse };
             one::<f32>(kind, n, dir, &mut rep);
             one::<f64>(kind, n, dir, &mut rep);
